@@ -136,7 +136,7 @@ Theorem C12_wire_converters_exact : forall f att next nbr fin fbr bits sg slot,
              u = from_finality_update att fin fbr bits sg slot) /\
   (forall u, from_light_client_optimistic_update f att bits sg slot = Ok u ->
              u = from_optimistic_update att bits sg slot) /\
-  (f <> WOther ->
+  (f <> WOther -> f <> WElectra ->
      from_light_client_update f att next nbr fin fbr bits sg slot <> Err E_UNKNOWN_TYPE /\
      from_light_client_finality_update f att fin fbr bits sg slot <> Err E_UNKNOWN_TYPE /\
      from_light_client_optimistic_update f att bits sg slot <> Err E_UNKNOWN_TYPE).
@@ -250,3 +250,104 @@ Proof.
   split; [vm_compute; reflexivity|].
   split; vm_compute; reflexivity.
 Qed.
+
+(* ================================================================== histories: a forged chain cannot be adopted
+   without a two-thirds signature of a trusted committee.
+   `trusted g s0 c p`  (Proofs/LightClient.v): c is the initial store's current committee (p = the store's period), its next
+   committee (p + 1), or was HANDED OVER by a trusted committee c' of period p - 1: more than two thirds (3*bits >= 2*512)
+   of c' signed, with a signature slot in period p - 1, a header of period p - 1 whose state root has c at the
+   next-sync-committee position (or SHA-256 collides).  `finalized_by g c p h`: more than two thirds of c signed, in period
+   p, a header at or after h whose state root has h at the finalized-checkpoint position (or collision).
+   The theorem quantifies over EVERY list of wire messages - LightClientUpdate / FinalityUpdate / OptimisticUpdate in any fork
+   container, honest or not, any slots, any clock value and fork version per step - run through convert, verify, apply. The
+   code has no force-update (no timeout path): process is the only transition. *)
+Theorem C12_history_safety : forall g s0 l,
+  let s := run_wire g s0 l in
+  trusted g s0 (s_cur s) (calc_sync_period (h_slot (s_fin s))) /\
+  (forall n, s_next s = Some n -> trusted g s0 n (calc_sync_period (h_slot (s_fin s)) + 1)) /\
+  (s_fin s = s_fin s0 \/
+   exists c p, trusted g s0 c p /\ finalized_by g c p (s_fin s) /\ calc_sync_period (h_slot (s_fin s)) <= p).
+Proof. intros g s0 l. destruct (history_safety g s0 l) as [A B C]. exact (conj A (conj B C)). Qed.
+Print Assumptions C12_history_safety.
+
+Theorem C12_history_safety_from_bootstrap : forall g checkpoint b now max_age strict s0,
+  bootstrap checkpoint b now max_age strict = Ok s0 ->
+  htr_lc_header b = checkpoint /\ s_cur s0 = b_committee b /\ s_next s0 = None /\ s_fin s0 = b_beacon b /\
+  forall l, trust_inv g s0 (run_wire g s0 l).
+Proof. exact history_safety_from_bootstrap. Qed.
+Print Assumptions C12_history_safety_from_bootstrap.
+
+(* trusted committees cannot be conjured: each one is an initial committee or has a hand-over behind it *)
+Theorem C12_trusted_has_origin : forall g s0 c p,
+  trusted g s0 c p ->
+  (c = s_cur s0 /\ p = calc_sync_period (h_slot (s_fin s0))) \/
+  (s_next s0 = Some c /\ p = calc_sync_period (h_slot (s_fin s0)) + 1) \/
+  (exists c' p', trusted g s0 c' p' /\ hands_over g c' p' c /\ p = p' + 1).
+Proof. exact trusted_inversion. Qed.
+Print Assumptions C12_trusted_has_origin.
+
+(* the four kinds of step of ApplyGenericUpdate (nothing; fill a missing next committee; advance within the period;
+   rotate), with the period condition that selects the rotation *)
+Theorem C12_apply_kinds : forall s u s' bits,
+  apply s u = Ok s' -> get_bits (u_bits u) = Ok bits ->
+  (s_fin s' = s_fin s /\ s_cur s' = s_cur s /\ s_next s' = s_next s) \/
+  (512 * 2 <= bits * 3 /\ fin_part s u s' /\
+   ((s_next s = None /\ s_cur s' = s_cur s /\ s_next s' = u_next u) \/
+    (exists nx, s_next s = Some nx /\
+        calc_sync_period (fin_slot_or_0 u) <> calc_sync_period (h_slot (s_fin s)) + 1 /\
+        s_cur s' = s_cur s /\ s_next s' = s_next s) \/
+    (exists nx, s_next s = Some nx /\
+        calc_sync_period (fin_slot_or_0 u) = calc_sync_period (h_slot (s_fin s)) + 1 /\
+        s_cur s' = nx /\ s_next s' = u_next u))).
+Proof. exact apply_kinds. Qed.
+Print Assumptions C12_apply_kinds.
+
+(* ================================================================== clock and period arithmetic, all values *)
+Theorem C12_bad_time_is_rejected : forall s u now genesis fv bits,
+  get_bits (u_bits u) = Ok bits -> bits <> 0 ->
+  (now < u_sigslot u \/ u_sigslot u <= h_slot (u_attested u) \/ h_slot (u_attested u) < fin_slot_or_0 u) ->
+  verify s u now genesis fv = Err E_TIMESTAMP.
+Proof. exact verify_rejects_bad_time. Qed.
+Print Assumptions C12_bad_time_is_rejected.
+
+(* with the clock the node actually reads (expectedCurrentSlot = TimeToSlot(time.Now(), GenesisTime)) *)
+Theorem C12_future_signature_rejected_at_clock : forall s u now_time genesis_time genesis fv,
+  now_time < genesis_time + u_sigslot u * K_LC_SECONDS_PER_SLOT -> 0 < u_sigslot u ->
+  verify_at s u now_time genesis_time genesis fv <> Ok tt.
+Proof. exact verify_at_rejects_future. Qed.
+Print Assumptions C12_future_signature_rejected_at_clock.
+
+Theorem C12_clock_arithmetic :
+  (forall now_time genesis_time slot,
+     expected_current_slot now_time genesis_time < slot <->
+     (0 < slot /\ now_time < genesis_time + slot * K_LC_SECONDS_PER_SLOT)) /\
+  (forall slot genesis_time t, genesis_time <= two64m1 -> time_at_slot slot genesis_time = Ok t ->
+     t = slot * K_LC_SECONDS_PER_SLOT + genesis_time /\ t <= two64m1).
+Proof. exact (conj expected_current_slot_spec time_at_slot_no_wrap). Qed.
+Print Assumptions C12_clock_arithmetic.
+
+(* the one uint64 subtraction (isValidCheckpoint): a bootstrap header in the future of the clock wraps to an enormous age *)
+Theorem C12_checkpoint_age_wraps : forall now_slot slot max_age,
+  (now_slot < slot -> slot * K_LC_SECONDS_PER_SLOT < two64 ->
+   (slot - now_slot) * K_LC_SECONDS_PER_SLOT + max_age <= two64 -> is_valid_checkpoint now_slot slot max_age = false) /\
+  (slot <= now_slot -> now_slot * K_LC_SECONDS_PER_SLOT < two64 ->
+   is_valid_checkpoint now_slot slot max_age = ((now_slot - slot) * K_LC_SECONDS_PER_SLOT <? max_age)).
+Proof. intros. split; [apply checkpoint_in_future_is_invalid | apply checkpoint_age_spec]. Qed.
+Print Assumptions C12_checkpoint_age_wraps.
+
+(* ================================================================== Electra (see the comment in Proofs/LightClient.v):
+   the bootstrap check is membership at generalized index 54; on an Electra-shaped state (64 leaves) that node is the parent
+   of the non-existent fields 44 and 45, so acceptance would need a committee whose root is H(0,0) *)
+Theorem C12_bootstrap_on_electra_state : forall checkpoint b now max_age strict s t,
+  bootstrap checkpoint b now max_age strict = Ok s ->
+  troot Hp t = h_state (b_beacon b) ->
+  subtree t (path_of 5 22) = Some (Node (Leaf zero32) (Leaf zero32)) ->
+  c_root (b_committee b) = Hp zero32 zero32 \/ Collision Hp.
+Proof. exact bootstrap_on_electra_state. Qed.
+Print Assumptions C12_bootstrap_on_electra_state.
+
+Theorem C12_electra_positions :
+  path_of 6 44 = path_of 5 22 ++ [false] /\ path_of 6 45 = path_of 5 22 ++ [true] /\
+  firstn 5 (path_of 6 22) <> path_of 5 22.
+Proof. exact electra_leaves_under_the_checked_position. Qed.
+Print Assumptions C12_electra_positions.
